@@ -1507,3 +1507,24 @@ func (c *Ctx) lenPins(fn *ssa.Function, x *eng.Explorer, empty bool, of func(ssa
 	})
 	return out
 }
+
+// emptinessTests finds the tests of "v is empty" for string, slice and map
+// values v accepted by of - `v == ""`, `v != ""`, `"" != v`, and comparisons of
+// len(v) with 0 or 1 - and returns explorer assumptions (register pins) that
+// give each of them the truth it has when v is NON-empty (nonEmpty=true) or
+// empty.
+func (c *Ctx) emptinessTests(fn *ssa.Function, x *eng.Explorer, nonEmpty bool, of func(ssa.Value) bool) map[string]bool {
+	out := c.lenPins(fn, x, !nonEmpty, of)
+	eng.Instrs(fn, func(in ssa.Instruction) {
+		b, ok := in.(*ssa.BinOp)
+		if !ok || (b.Op != token.EQL && b.Op != token.NEQ) {
+			return
+		}
+		for i, o := range []ssa.Value{b.X, b.Y} {
+			if s, isS := eng.ConstString([]ssa.Value{b.Y, b.X}[i]); isS && s == "" && of(o) {
+				out[x.RegKey(b)] = (b.Op == token.NEQ) == nonEmpty
+			}
+		}
+	})
+	return out
+}
